@@ -70,7 +70,7 @@ class Mon:
     def attach(self):
         from pydrobert.speech import pre as P
 
-        monitor.attach(P.Preemphasize, "apply", pre=self.pre, post=self.post_preemph)
+        monitor.attach(P.Preemphasize, "apply", pre=self.pre, post=self.post_preemph, ambient=self.v, ambient_ok=monitor.not_in_place)
         monitor.attach(P.Dither, "apply", pre=self.pre, post=self.post_dither)
 
     def v(self, what, **kw):
